@@ -4,3 +4,6 @@ pub(crate) mod metrics;
 
 pub(crate) use simple_trace::SimpleTracer;
 pub use perf_counter::{PerfCounter, QueryPerfCounter};
+
+#[cfg(locustdb_verif)]
+pub use simple_trace::SimpleTracer as VerifSimpleTracer;
